@@ -171,17 +171,22 @@ Definition dead_client : client := mkCl false false false [] [] Gone.
 Definition client_of (w : world) (c : nat) : client :=
   match alookup c (w_clients w) with Some cl => cl | None => dead_client end.
 
+(* how many bytes one recvmsg returns: at most k (0: no bound) of what is available and fits *)
+Definition read_amount (k room avail : nat) : nat :=
+  let a := Nat.min room avail in if Nat.eqb k 0 then a else Nat.min k a.
+
 (* ---------- one epoll event ---------- *)
-(* EvOut g k: the kernel accepts at most k bytes of what is offered (k = 0: everything); K3 only promises at least
+(* EvIn g k: recvmsg returns at most k of the available bytes that fit (k = 0: all of them); K2 only promises at
+   least one.  EvOut g k: the kernel accepts at most k bytes of what is offered (k = 0: everything); K3 only promises at least
    one byte on an OUT report *)
-Inductive event := EvHup (g : nat) | EvIn (g : nat) | EvOut (g : nat) (k : nat) | EvListener (newfd : nat) | EvKill.
+Inductive event := EvHup (g : nat) | EvIn (g : nat) (k : nat) | EvOut (g : nat) (k : nat) | EvListener (newfd : nat) | EvKill.
 
 (* readiness of one connection (level-triggered) *)
 Definition conn_event (w : world) (g : nat) (x : sconn) : option event :=
   let cl := client_of w (sc_client x) in
   if k_hup cl then Some (EvHup g)
   else if sc_out x then Some (EvOut g 0)
-  else match k_tosrv cl with [] => None | _ => Some (EvIn g) end.
+  else match k_tosrv cl with [] => None | _ => Some (EvIn g 0) end.
 
 (* a descriptor number not in use (Linux hands out the lowest free one; the theorems hold for any
    unused number, and no observation depends on the choice) *)
@@ -203,13 +208,13 @@ Definition handle_event (w : world) (e : event) : (world * list yield) + serr :=
       | Some x =>
           inl (set_conn w g (mkSC (clear_write_buffer (sc_conn x)) SClosed (sc_infl x) (sc_client x) (sc_out x) (sc_gid x)), [])
       end
-  | EvIn g =>
+  | EvIn g k =>
       match alookup g (w_conns w) with
       | None => inr EPanic
       | Some x =>
           let cl := client_of w (sc_client x) in
           let room := (BUF - length (c_win (sc_conn x)))%nat in
-          let n := Nat.min room (length (k_tosrv cl)) in
+          let n := read_amount k room (length (k_tosrv cl)) in
           match cc_read x (RData (firstn n (k_tosrv cl)) []) with
           | inr err => inr err
           | inl (y, reqs) =>
